@@ -36,7 +36,7 @@ def gen_case(rng):
     if rng.random() < .35:
         n = int(rng.integers(3, 15))
     else:
-        n = int(gens.pick(rng, [16, 40, 100, 100, 300]))
+        n = int(gens.pick(rng, [16, 40, 100, 100, 300, 300, 2500]))
     if eo['interp_method'] != 'splrep':
         n = min(n, 150)
     x = gens.signal(rng, kind, n)
